@@ -102,6 +102,9 @@ func c12Gen(r *rand.Rand) eng.History {
 		f := &op.Flags
 		f.NoHooks = r.Intn(8) == 0
 		f.Atomic = (kind == "install" || kind == "upgrade") && r.Intn(8) == 0
+		if f.Atomic && r.Intn(2) == 0 {
+			f.NoHooks = true
+		}
 		f.Cleanup = (kind == "upgrade" || kind == "rollback") && r.Intn(6) == 0
 		if kind == "uninstall" {
 			f.KeepHistory = r.Intn(2) == 0
@@ -137,17 +140,32 @@ func c12Gen(r *rand.Rand) eng.History {
 		if len(rel) == 0 {
 			rel = cand
 		}
-		if len(rel) > 0 {
+		nonHook := func() {
+			if len(op.Manifest) > 0 && r.Intn(2) == 0 {
+				op.KFault = &eng.KFault{Verb: "create", Key: op.Manifest[r.Intn(len(op.Manifest))].Key()}
+			} else {
+				op.WaitFail = true
+			}
+		}
+		if f.Atomic && r.Intn(2) == 0 {
+			nonHook() // the recovery (automatic uninstall / rollback) runs, with or without hooks
+		} else if len(rel) == 0 {
+			if r.Intn(10) == 0 {
+				nonHook()
+			}
+		} else {
 			x := rel[r.Intn(len(rel))]
 			switch k := r.Intn(100); {
 			case k < 45:
-			case k < 85:
+			case k < 55:
+				nonHook()
+			case k < 88:
 				nth := 0
 				if r.Intn(3) == 0 {
 					nth = 1
 				}
 				op.HFault = &eng.HFault{Name: x.Res.Name, Nth: nth}
-			case k < 95:
+			case k < 96:
 				op.KFault = &eng.KFault{Verb: "create", Key: x.Res.Key()}
 			default:
 				op.KFault = &eng.KFault{Verb: "delete", Key: x.Res.Key()}
@@ -174,7 +192,7 @@ func c12Exhaustive() []any {
 		for _, x := range hs {
 			names = append(names, x.Res.Name)
 		}
-		for _, fl := range []eng.Flags{{}, {Atomic: true}, {NoHooks: true}, {Cleanup: true}} {
+		for _, fl := range []eng.Flags{{}, {Atomic: true}, {NoHooks: true}, {Cleanup: true}, {Atomic: true, NoHooks: true}} {
 			base := []*eng.Op{
 				c12Op("install", 1, fl, hs, "a", "b"),
 				c12Op("upgrade", 2, fl, hs, "a", "c"),
@@ -195,6 +213,8 @@ func c12Exhaustive() []any {
 					return hist(ops...)
 				}
 				out = append(out, mk(func(o *eng.Op) *eng.Op { return o }))
+				out = append(out, mk(func(o *eng.Op) *eng.Op { c := *o; c.WaitFail = true; return &c }))
+				out = append(out, mk(func(o *eng.Op) *eng.Op { return withK(o, "create", "ConfigMap/a") }))
 				for _, nm := range names {
 					for nth := 0; nth < 3; nth++ {
 						nm, nth := nm, nth
